@@ -11,7 +11,7 @@ META = dict(
          "Include/Skip, and every inspector for main and top) with the interface's documented preconditions as enabling conditions. TLC checks the "
          "model exhaustively on small constants (well-formedness, naive answers mutually consistent, staging start/commit/abort and 'mutators leave "
          "main alone', a BlockBuilder freezes main, Trim's postcondition, every non-oversized cluster has a topological order with connected chunks) "
-         "and generates seeded operation sequences over 6 transaction slots with limits 3 transactions / 5 size units per cluster, so oversize, Trim "
+         "and generates seeded operation sequences (a sixth of them opening with a scripted 'dependency applied by a non-ordering inspector, then a removal' shape) over 6 transaction slots with limits 3 transactions / 5 size units per cluster, so oversize, Trim "
          "and staging are dense. The harness replays them on a real TxGraph (SanityCheck after every call): structural answers (Exists, ancestors, "
          "descendants, clusters, unions, counts, distinct clusters, oversize status, individual feerates) must equal the specification's prediction; "
          "all ordering answers obtained between two calls that may change a linearization (GetCluster order, chunk feerates, CompareMainOrder, "
@@ -70,17 +70,34 @@ def run(ctx):
     # 1. the model itself, exhaustively on small constants
     # (VERIF_C25_ONLY=replay skips it: the model does not change when /repo is mutated in the binding self-tests)
     only = os.environ.get("VERIF_C25_ONLY", "")
-    for cfg in ([] if only == "replay" else ["MC_quick_a.cfg", "MC_quick_b.cfg"] if quick else ["MC_quick_a.cfg", "MC_quick_b.cfg", "MC_mid.cfg", "MC_small.cfg"]):
-        ctx.tlc("TxGraph", "TxGraph", cfg, emit=False)
-    # 2. generator: seeded random behaviours of the specification
-    sim_cfg, obs_cfg, num = ("Sim_quick.cfg", "Obs_quick.cfg", 200) if quick else ("Sim_thorough.cfg", "Obs_thorough.cfg", 1500)
+    mc_cfgs = [] if only == "replay" else ["MC_quick_a.cfg", "MC_quick_b.cfg"] if quick else ["MC_quick_a.cfg", "MC_quick_b.cfg", "MC_mid.cfg", "MC_small.cfg"]
+    # 2. generator: seeded random behaviours of the specification (runs side by side with the exhaustive runs)
+    sim_cfg, obs_cfg, num = ("Sim_quick.cfg", "Obs_quick.cfg", 160) if quick else ("Sim_thorough.cfg", "Obs_thorough.cfg", 800)
     depth = 60
-    r = ctx.tlc("TxGraph", "TxGraph", sim_cfg, simulate=(num, depth))
+    with concurrent.futures.ThreadPoolExecutor(max_workers=3) as ex:
+        sim = ex.submit(lambda: ctx.tlc("TxGraph", "TxGraph", sim_cfg, simulate=(num, depth)))
+        mcs = [ex.submit(lambda c=c: ctx.tlc("TxGraph", "TxGraph", c, emit=False, workers=2 if quick else None)) for c in mc_cfgs]
+        for f in mcs:
+            f.result()
+        r = sim.result()
     tests = vflib.sim_behaviours(r.emit_path)
     per_action = collections.Counter(s["a"][0] for t in tests for s in t["steps"])
     missing = [a for a in MUTATORS + QUERIES if not per_action[a]]
     if missing:
         raise vflib.InfraError("vacuity: actions never taken by the generator: %s" % missing)
+    # the scripted openings (TxGraph.tla, Scripts): a dependency applied by an inspector that needs no linearization, then a removal
+    pat = ["add", "add", "dep", "sweep", "add", "dep", None, "remove", "sweep"]
+    scripted = 0
+    for t in tests:
+        acts = [x["a"] for x in t["steps"]]
+        for off in (0, 1, 2):
+            w = acts[off:off + 9]
+            if len(w) == 9 and all(p is None or p == a[0] for p, a in zip(pat, w)) and w[7][2] == "desc" and w[7][4] == [w[7][1]]:
+                scripted += 1
+                break
+    if scripted < 5:
+        raise vflib.InfraError("vacuity: only %d behaviours start with a scripted lazy-merge-then-split opening" % scripted)
+    ctx.extra["scripted_lazy_merge_split_behaviours"] = scripted
     oversized_states = sum(1 for t in tests for s in t["steps"] if s["a"][0] == "oversized" and s["r"] is True)
     if not oversized_states:
         raise vflib.InfraError("vacuity: the generator never reached an oversized graph")
@@ -96,7 +113,7 @@ def run(ctx):
     ctx.sample(dict(actions=[x["a"] for x in mid["steps"][:25]], predicted=[x["r"] for x in mid["steps"][:25]]))
     if obs:
         ctx.sample(dict(observation=obs[len(obs) // 2]))
-    vflib.report_mismatches(ctx, binary, "replay", res, adapter="txgraph", what_prefix="TxGraph structural answer differs from the naive graph: ")
+    vflib.report_mismatches(ctx, binary, "replay", res, adapter="txgraph", what_prefix="TxGraph replay (structural answers must equal the naive graph; an abort is an assertion of the code under test, e.g. SanityCheck): ")
     seen = set()
     for i, inv in bad:
         o = obs[i]
@@ -124,9 +141,9 @@ def run(ctx):
     ctx.extra["observations_judged"] = len(obs)
     ctx.extra["generator_queries_in_oversized_state"] = oversized_states
     for k in ("epochs", "sweeps", "builder_walks"):
-        if not s.get(k):
+        if not s.get(k) and not ctx.violations:
             raise vflib.InfraError("vacuity: harness counter %s = 0" % k)
-    if not (s.get("trim_same_choice") or s.get("trim_other_choice")):
+    if not (s.get("trim_same_choice") or s.get("trim_other_choice")) and not ctx.violations:
         raise vflib.InfraError("vacuity: Trim never removed anything")
     ctx.assumptions += ["sampled behaviours (TLC -simulate, seed = VERIF_SEED): at most 6 simultaneous transactions, clusters limited to 3 transactions / 5 size units",
                         "callers respect the interface's preconditions (they are the enabling conditions of the specification's actions)",
